@@ -133,7 +133,7 @@ class P(Property):
     id = 'C01'
     gen_modules = ['gen_varint', 'gen_codes', 'gen_headers', 'gen_datagram', 'gen_writers']
     properties_v = 'Properties/C01.v'
-    model_targets = ['Model/EndToEndRef.vo', 'Spec/EndToEndSpec.vo', 'Model/EndToEndLayers.vo']
+    model_targets = ['Model/EndToEndH3.vo', 'Spec/EndToEndSpec.vo']
     extract_v = 'Extract/ExtractC01.v'
     driver_ml = 'C01_driver.ml'
     harness_bin = 'c01'
@@ -145,17 +145,26 @@ class P(Property):
             '(uniform, weighted, strict-priority over client tasks, server tasks, deliveries per direction and stream, '
             'grants) x whole / split request streams x grease on/off. non-trivial = distinct cases whose exchange completed '
             'and carried at least one field, body byte or trailer in some direction')
-    partial_note = ('C01 is a composition: the pinned composition theorem is closed and generic; the premises not yet '
-                    'discharged by the owning properties are listed in coq/Properties/C01.v and stay explicit premises')
+    partial_note = ('C01 is a composition.  Closed and pinned: the generic composition theorem; the header-mapping round trip over the '
+                    'C12 model (http-crate facts as explicit premises request_ok/response_ok/map_ok); the write side over the C14 '
+                    'WriteBuf model under any acceptance script; the RFC reading of the sender layout over the C02 reference reader; '
+                    'the incremental reference reader for every chunking/interleaving (safety and completion); and the end-to-end '
+                    'theorems C01_*_fidelity_reference_reader for the pipeline [C12 mapping, reference field-section coding, C14 '
+                    'writer, reference reader] that the correspondence run executes as its model column.  Still open, as explicit '
+                    'premises of C01_*_fidelity_partial: h3 QPACK stateless round trip (C11) and the FrameStream/RequestStream '
+                    'refinement (C02/C03) in place of the two reference layers')
     trusted_extra = [
-        'http crate behaviour (Uri/Method/HeaderName/HeaderValue parse and print) enters as premises of the header-mapping law; '
-        'the linked-pair run exercises the real crate',
+        'http crate behaviour (Uri/Method/HeaderName/HeaderValue parse and print) enters as the premises request_ok / response_ok / '
+        'map_ok of the header-mapping round trip; the linked-pair run exercises the real crate',
         'the linked-pair scheduler of harness/src/bin/c01.rs (seeded choice among enabled actions) and SimQuic pump',
+        'the reference field-section coding and the reference reader (Model/EndToEndRef.v) stand in for h3 qpack and '
+        'FrameStream/RequestStream in the closed end-to-end theorem; the real ones are tied to it only through the '
+        'linked-pair correspondence (end-to-end observations, not wire bytes)',
     ]
 
     def cases(self, tier, rng):
         out = []
-        n = 2200 if tier == 'quick' else 120000
+        n = 1600 if tier == 'quick' else 120000
         for i in range(n):
             out.append(gen_case(rng, tier, heavy=(tier != 'quick' and i % 50 == 0)))
         return out
